@@ -3,8 +3,9 @@ a chain main -> F1 -> ... -> Fd with a raise at the deepest level, handlers plac
 from zneval import *
 
 RAISES = {
-    "thr": lambda: throw("@exc", s("boom")),
-    "cust": lambda: throw("E1", s("x")),
+    # (the messages carry characters that mean something to formatting / templating code: they are data and reach the top unchanged)
+    "thr": lambda: throw("@exc", s("boom 100%! %d %s {} {#.2} \\n")),
+    "cust": lambda: throw("E1", s("x%v")),
     "custm": lambda: throw("E3", s("x")),      # a type defined in the module file of the raising method
     "idx": lambda: ex(idx(lst(num(1)), num(5))),
     "div": lambda: decl("Q", bin_("div", num(1), bin_("sub", num(2), num(2)))),
@@ -21,7 +22,7 @@ def raise_expr(rk):
     if rk == "undef": return var("NOPE")
     return call("RF")
 def raise_funcs(rk):
-    if rk == "thr": return [func("RF", [], [mark("RF-in"), throw("@exc", s("boom")), mark("RF-dead")])]
+    if rk == "thr": return [func("RF", [], [mark("RF-in"), throw("@exc", s("boom 100%! %d %s {} {#.2} \\n")), mark("RF-dead")])]
     if rk == "cust": return [func("RF", [], [mark("RF-in"), throw("E1", s("x")), mark("RF-dead")])]
     if rk == "custm": return [func("RF", [], [mark("RF-in"), throw("E3", s("x")), mark("RF-dead")])]
     return []
